@@ -23,6 +23,12 @@ negative addresses there).  Two/three pins: the first pinned label (text order) 
 value of a 6-value menu of BASE-relative addresses (equal, adjacent, overlapping by one unit, exactly contiguous for the
 common body sizes, before BASE, far away: the far value forces the long branch forms on x86).
 
+Family `windows` (x86_32): f = 2..3 free blocks `.long <ref> ; .split` and a chain of `.long <ref>` blocks (every block
+has exactly the size the assembler reserves), the chain pinned at each of its positions; dst_interval is made of two
+windows - the chain's bytes plus room for exactly one free block, and room for the others elsewhere - or (kind `hole`) one
+window with the last free block pinned so that the hole after the chain holds exactly one free block: placing the second
+un-pinned chain must see that the first one filled the hole.
+
 dst_interval in {None, roomy, tight, tight-1}: tight is the hull of the most compact layout the reference search finds,
 roomy adds 0x80 bytes of slack on both sides (the assembler reserves the *longest* encoding of every instruction while it
 places chains, so only a roomy interval exercises "patches stay inside the interval" on successful runs).
@@ -53,7 +59,9 @@ LEVEL = "exploration"
 ENGINE = "enum"
 RULE = ("every text of f free blocks + a fall-through chain of c blocks with bodies from {NOP xk, JMP/JZ label, .long label, RET}, "
         "every subset of <=K pinned labels (every chain position) with addresses from a 6-value relative menu, dst_interval in "
-        "{None, tight, tight-1}; non-trivial = at least one pin or a bounded interval; distinct by (text, pins, interval)")
+        "{None, roomy, tight, tight-1}; plus (x86_32) the `windows` family: 2-3 exactly-sized free blocks next to a pinned chain with a "
+        "two-window dst_interval / a pinned neighbour leaving a hole for exactly one of them; non-trivial = at least one pin or a "
+        "bounded interval; distinct by (text, pins, interval)")
 LEVEL_TEXT = ("Bounded-exhaustive: every program of the lattice is parsed by parse_txt, pinned through the LocationDB and assembled by "
               "asm_resolve_final; feasibility is decided by an independent brute-force layout search that exhibits a witness layout, "
               "and returned patches are checked byte-wise (placement, disjointness, interval, contiguity, re-decoding with label "
@@ -146,19 +154,31 @@ ARCHS = {
 }
 for _a in ARCHS.values():
     _a["items"]["DZ"] = _a["items"]["D"] + _a["items"]["Z"]     # data word then a size-variable branch in one block
-TERM = ("J", "R")
+    _a["items"]["S"] = _a["items"]["D"]      # data word followed by `.split`: a chain end whose size the assembler knows exactly
+TERM = ("J", "R", "S")
+
+
+def _windows(itv):
+    """None | (lo, hi) | ((lo, hi), (lo, hi), ...)  ->  None | list of (lo, hi)"""
+    if not itv:
+        return None
+    if isinstance(itv[0], int):
+        return [tuple(itv)]
+    return [tuple(w) for w in itv]
 PLACEMENT_REFUSALS = ("Chain-placed-out-of-destination-interval", "Cannot-find-enough-space-to-place-blocks")
 
 # tier -> arch -> parameters
 BOUNDS = {
     "quick": {
         "x86_32": {"structures": [(1, 0), (2, 0), (3, 0), (1, 1), (2, 1)], "inner": ["N", "D", "DZ"], "last": ["N", "D", "J"],
-                   "free": ["J", "R"], "refs": ["next"], "max_pins": 2, "pair_intervals": ["none", "roomy", "tight"]},
+                   "free": ["J", "R"], "refs": ["next"], "max_pins": 2, "pair_intervals": ["none", "roomy", "tight"],
+                   "windows": {"structures": [(1, 2), (2, 2), (1, 3), (2, 3)]}},
     },
     "thorough": {
         "x86_32": {"structures": [(1, 0), (2, 0), (3, 0), (1, 1), (2, 1), (3, 1), (1, 2), (2, 2)],
                    "inner": ["N", "D", "Z", "DZ"], "last": ["N", "D", "J"], "free": ["J", "R"], "refs": ["next", "first"],
-                   "max_pins": 3, "pair_intervals": ["none", "roomy", "tight", "tight-1"]},
+                   "max_pins": 3, "pair_intervals": ["none", "roomy", "tight", "tight-1"],
+                   "windows": {"structures": [(1, 2), (2, 2), (3, 2), (1, 3), (2, 3), (3, 3)]}},
         "arml": {"structures": [(1, 0), (2, 0), (3, 0), (1, 1), (2, 1), (3, 1)], "inner": ["N", "D", "Z"], "last": ["N", "D", "J"],
                  "free": ["J", "R"], "refs": ["next"], "max_pins": 2, "pair_intervals": ["none", "roomy", "tight"]},
         "mips32l": {"structures": [(1, 0), (2, 0), (3, 0), (1, 1), (2, 1), (3, 1)], "inner": ["N", "D", "Z"], "last": ["N", "D", "J"],
@@ -183,6 +203,8 @@ def programs(arch, par):
                 for inner in itertools.product(par["inner"], repeat=c - 1):
                     for last in par["last"]:
                         out.append({"arch": arch, "bodies": list(fb) + list(inner) + [last], "nfree": f, "ref": ref})
+    if "windows" in par:
+        out += window_programs(arch, par["windows"])
     return out
 
 
@@ -208,7 +230,7 @@ def text_of(prog):
         lines.append("%s:" % labs[i])
         for el in a["items"][kind]:
             lines.append("    " + el[1].format(ref=labs[ref_of(prog, i, el[0] == "d")]))
-        if kind in TERM and a["split"] and i + 1 < len(prog["bodies"]):
+        if kind in TERM and (a["split"] or kind == "S") and i + 1 < len(prog["bodies"]):
             lines.append(".split")
     return "\n".join(lines) + "\n"
 
@@ -253,12 +275,13 @@ def _block_sizes(prog, choice_of):
 
 def search(prog, pins, itv):
     """Best (most compact) witness layout, or None.
-    @pins: {block index: address}; @itv: None or (lo, hi) inclusive.
+    @pins: {block index: address}; @itv: None, (lo, hi) inclusive, or a tuple of such windows.
     -> {"addr": [block start], "sizes": [[element sizes]], "lo", "hi"}"""
     a = ARCHS[prog["arch"]]
     align = a["align"]
     chains = model_chains(prog)
     slots = _variable_slots(prog)
+    wins = _windows(itv)
     best = None
     for choice in itertools.product(*[range(len(s[2])) for s in slots]):
         choice_of = {(s[0], s[1]): c for s, c in zip(slots, choice)}
@@ -293,25 +316,28 @@ def search(prog, pins, itv):
             return all(x[1] <= y[0] for x, y in zip(spans, spans[1:]))
 
         def inside(pl):
-            if itv is None:
+            if wins is None:
                 return True
-            return all(itv[0] <= pl[ci] and pl[ci] + csz[ci] - 1 <= itv[1] for ci in pl)
+            return all(any(w[0] <= pl[ci] and pl[ci] + csz[ci] - 1 <= w[1] for w in wins) for ci in pl)
 
         if not disjoint(placed) or not inside(placed):
             continue
 
         def candidates(pl, s):
-            if itv is not None and itv[1] - itv[0] < 64:
-                cs = range(itv[0], itv[1] - s + 2)
+            if wins is not None and len(wins) == 1 and wins[0][1] - wins[0][0] < 64:
+                cs = range(wins[0][0], wins[0][1] - s + 2)
             else:
                 cs = set()
                 for ci in pl:
                     cs.add(pl[ci] + csz[ci])
                     cs.add(pl[ci] - s)
-                if itv is not None:
-                    cs.add(itv[0])
-                    cs.add(itv[1] - s + 1)
-                if not pl and itv is None:
+                for w in wins or []:
+                    if len(wins) > 1 and w[1] - w[0] < 64:
+                        cs.update(range(w[0], w[1] - s + 2))
+                    else:
+                        cs.add(w[0])
+                        cs.add(w[1] - s + 1)
+                if not pl and wins is None:
                     cs.add(BASE)
                 cs = sorted(cs)
             return [p for p in cs if p >= 0 and p % align == 0]
@@ -375,8 +401,41 @@ def pin_sets(prog, par):
     return out
 
 
+def window_programs(arch, wpar):
+    """Programs of the two-window / small-hole family: @f free blocks `.long ; .split` and a chain of @c `.long` blocks -
+    every block has exactly the size the assembler reserves for it, so an exact-fit hole is decided by placement alone"""
+    return [{"arch": arch, "bodies": ["S"] * f + ["D"] * c, "nfree": f, "ref": "next", "fam": "windows"}
+            for (c, f) in wpar["structures"]]
+
+
+def cases_windows(prog):
+    """Several un-pinned chains next to pinned ones, holes that hold exactly one of them:
+      windows  the chain is pinned (at each of its positions) at BASE-relative addresses; dst_interval = the chain's bytes
+               plus room for exactly ONE free block right after it, and a second window elsewhere for the others
+      hole     additionally the last free block is pinned so that the hole between the chain and it holds exactly one
+               free block; dst_interval = one window ending exactly after room for the remaining free blocks"""
+    a = ARCHS[prog["arch"]]
+    f = prog["nfree"]
+    sz = [sum(el[2] if el[0] == "d" else el[4][0][0] for el in a["items"][k]) for k in prog["bodies"]]
+    chain = list(range(f, len(sz)))
+    csize = sum(sz[b] for b in chain)
+    out = []
+    for p in chain:
+        base = BASE - sum(sz[b] for b in chain if b < p)      # chain start when block p sits at BASE
+        wins = ((base, base + csize + sz[0] - 1), (base + 0x40, base + 0x40 + (f - 1) * sz[0] - 1))
+        pins = {p: BASE}
+        out.append((pins, "windows", wins, search(prog, pins, wins)))
+        if f >= 3:
+            pins = {p: BASE, f - 1: base + csize + sz[0]}
+            win = (base, base + csize + sz[0] + sz[f - 1] + (f - 2) * sz[0] - 1)
+            out.append((pins, "hole", win, search(prog, pins, win)))
+    return out
+
+
 def cases_of(prog, par):
     """-> list of (pins, interval kind, interval or None, witness or None)"""
+    if prog.get("fam") == "windows":
+        return cases_windows(prog)
     out = []
     for pins in pin_sets(prog, par):
         w = search(prog, pins, None)
@@ -467,11 +526,13 @@ def evaluate(prog, pins, ikind, itv, witness, parsed=None):
     a = ARCHS[arch]
     m = _machine(arch)
     labs = labels_of(prog)
-    case = {"prog": prog, "pins": {str(k): v for k, v in pins.items()}, "ikind": ikind, "itv": list(itv) if itv else None}
+    wins = _windows(itv)
+    case = {"prog": prog, "pins": {str(k): v for k, v in pins.items()}, "ikind": ikind,
+            "itv": (list(itv) if isinstance(itv[0], int) else [list(w) for w in itv]) if itv else None}
     skel = "pins=%s:interval=%s" % (pin_skeleton(prog, pins), ikind)
     desc = "%s %s ref=%s pins=%s dst_interval=%s" % (
         arch, "|".join(prog["bodies"][:prog["nfree"]]) + "||" + "|".join(prog["bodies"][prog["nfree"]:]), prog["ref"],
-        {labs[k]: hex(v) for k, v in sorted(pins.items())}, "[%#x,%#x]" % tuple(itv) if itv else None)
+        {labs[k]: hex(v) for k, v in sorted(pins.items())}, "+".join("[%#x,%#x]" % w for w in wins) if wins else None)
     vs = []
 
     def bad(detail, what):
@@ -510,7 +571,7 @@ def evaluate(prog, pins, ikind, itv, witness, parsed=None):
     except KeyError:
         # two labels at one address: the LocationDB cannot express it (and no layout exists: every block has bytes)
         return vs, "pin-refused"
-    dst = interval([tuple(itv)]) if itv else None
+    dst = interval(list(wins)) if wins else None
     counter = [0]
     _guard(loc_db, counter)
     try:
@@ -540,6 +601,8 @@ def evaluate(prog, pins, ikind, itv, witness, parsed=None):
                 # final overlap check / two labels meeting at one offset while sizes settle: the interval kind only moves
                 # the un-pinned chains around
                 skel = "pins=%s" % pin_skeleton(prog, pins)
+                if _slug(e) == "overlapping-bytes" and not _variable_slots(prog):
+                    skel += ":fixed-sizes"        # no branch form to choose: the overlap is not a matter of reach
             bad("feasible-but-raised:%s:%s" % (type(e).__name__, _slug(e)),
                 "raised %s(%s) although the layout %s exists" % (
                     type(e).__name__, e, {labs[i]: hex(x) for i, x in enumerate(witness["addr"])}))
@@ -556,8 +619,10 @@ def evaluate(prog, pins, ikind, itv, witness, parsed=None):
             image[off + j] = byte
     if overl is not None:
         bad("patches-overlap", "two patches write address %#x: %r" % (overl, {hex(k): bytes(v).hex() for k, v in sorted(patches.items())}))
-    if itv and image and (min(image) < itv[0] or max(image) > itv[1]):
-        bad("patch-outside-interval", "patched bytes span [%#x,%#x]" % (min(image), max(image)))
+    if wins and image:
+        outside = sorted(x for x in image if not any(w[0] <= x <= w[1] for w in wins))
+        if outside:
+            bad("patch-outside-interval", "patched bytes outside dst_interval: %s" % ", ".join(hex(x) for x in outside[:8]))
     final = [loc_db.get_location_offset(k) for k in keys]
     for i, addr in sorted(pins.items()):
         if final[i] != addr:
@@ -715,8 +780,10 @@ def run(ctx):
 
 def replay(case):
     prog = case["prog"]
-    prog = {"arch": prog["arch"], "bodies": list(prog["bodies"]), "nfree": prog["nfree"], "ref": prog["ref"]}
+    prog = dict(prog, bodies=list(prog["bodies"]))
     pins = {int(k): v for k, v in case["pins"].items()}
-    itv = tuple(case["itv"]) if case.get("itv") else None
+    itv = case.get("itv") or None
+    if itv:
+        itv = tuple(itv) if isinstance(itv[0], int) else tuple(tuple(w) for w in itv)
     w = search(prog, pins, itv)
     return evaluate(prog, pins, case["ikind"], itv, w)[0]
